@@ -70,22 +70,7 @@ Scenarios == UNION { { Scenario(fs) : fs \in [1 .. k -> FrameSet] } : k \in 1 ..
 VARIABLE sc
 mvars == <<svars, sc>>
 
-\* a representative reply for each allowed outcome (the model needs concrete reply octets to send)
-EncOut(C, r, o) ==
-  LET svc == SvcCode(r) IN
-  CASE o.k = "ok" /\ r.svc \in {"read", "readf"} -> EncReadReply(svc, o.st, <<>>, C.tags[r.tag].type, o.data)
-    [] o.k = "ok" -> EncPlainReply(svc, 0, <<>>)
-    [] o.k = "okbytes" -> EncDataReply(svc, 0, <<>>, o.data)
-    [] o.k = "err" -> EncPlainReply(svc, o.st, o.ext)
-    [] o.k = "anyfail" -> EncPlainReply(svc, 5, <<0>>)
-Replies(f) ==
-  CASE f.kind = "register" -> { EncEnip(CmdRegister, <<1, 0, 0, 0>>, 0, f.ctx, 0, RegisterPayload) }
-    [] f.kind \in {"listservices", "listidentity", "listinterfaces"} -> { EncEnip(KindCmd(f.kind), f.sess, 0, f.ctx, 0, <<0, 0>>) }
-    [] f.kind = "rr" /\ ~RouteAccepted(sc.pers, f) -> { EncEnip(CmdSendRR, f.sess, 8, f.ctx, 0, <<>>) }
-    [] f.kind = "rr" /\ f.req.svc # "multi" ->
-         { RRReply(f, EncOut(sc.cfg, f.req, o)) : o \in SingleOuts(sc.cfg, smem, f.req) }
-         \cup (IF f.req.tag = 0 THEN { EncEnip(CmdSendRR, f.sess, 8, f.ctx, 0, <<>>) } ELSE {})
-    [] OTHER -> {}
+Replies(f) == RepliesOf(sc, smem, f)
 
 MInit == sc \in Scenarios /\ SInit(sc)
 MNext == /\ UNCHANGED sc
